@@ -211,6 +211,32 @@ def r19_config_invariance(facts_by_cfg, run_rules):
                           "from the double-precision reference by more than rounding" % norm(callee(n)))
         if not hits:
             c.ok("width-const:%s" % cfg, "-", "no EPSILON / MAX / MIN_POSITIVE / .. of a float type in the %s build's bodies" % cfg)
+    # (g) no integer is derived from a floating-point value: a shape, count, index or loop bound that goes through a Float is rounded
+    #     to the float's width (exact up to 2^53 in one build, up to 2^24 in the other), so shapes / accepted inputs would depend on it
+    for cfg, facts in (("default", fd), ("f32", f3)):
+        hits = n_i2f = 0
+        for b in facts.bodies:
+            mir = b.get("mir")
+            if not mir:
+                continue
+            for blk in mir["blocks"]:
+                for st in blk["stmts"]:
+                    t = st["text"]
+                    if "(IntToFloat)" in t:
+                        n_i2f += 1
+                    if "(FloatToInt)" in t:
+                        hits += 1
+                        c.bad("float-to-int:%s:%s" % (cfg, norm(b["def"])), "%s:%d" % (F.rel(b["file"]), b["sp"][0]),
+                              "an integer is computed from a floating-point value (`%s`): whatever it sizes, counts or indexes is rounded to the float's width first "
+                              "(integers above 2^24 are not exact in the single-precision build), so shapes and accepted inputs can differ between the builds" % norm(t)[:100])
+                t = blk["term"]["text"]
+                if "to_int_unchecked" in t:
+                    hits += 1
+                    c.bad("float-to-int:%s:%s" % (cfg, norm(b["def"])), "%s:%d" % (F.rel(b["file"]), b["sp"][0]), "an integer is computed from a floating-point value (`%s`)" % norm(t)[:100])
+        if cfg == "default":
+            c.floor("integer-to-float casts seen in MIR (the cast kinds are visible to this clause)", n_i2f, 4)
+        if not hits:
+            c.ok("float-to-int:%s" % cfg, "-", "no float-to-integer conversion anywhere in the %s build (%d integer-to-float casts seen)" % (cfg, n_i2f))
     # (e) every other rule gives the same obligations under both configurations
     from . import registry as REG
     diffs = 0
